@@ -24,9 +24,9 @@ type Engine struct {
 	prog    *ssa.Program
 	pkg     *ssa.Package
 	solver  *Solver
-	prefix  []int
-	trace   []int
-	pending [][]int
+	prefix  []Decision
+	trace   []Decision
+	pending [][]Decision
 	pc      []*Term
 	symN    int
 	symVars []*Term
@@ -111,6 +111,16 @@ func (e *Engine) assume(c *Term) {
 	e.solver.Assert(c)
 }
 
+// Decision is one entry of a path's decision vector. A path is re-executed from the start by
+// following its vector, so every decision must be reproducible independently of the solver's state:
+// branches record the side taken, concretizations record the value chosen (never "the model the
+// solver happens to return now").
+type Decision struct {
+	Kind int      // 0 branch, 1 concretized to Val, 2 "pick a value not in Excl"
+	Val  uint64   // branch: 0/1 ; kind 1: the value
+	Excl []uint64 // values already explored by sibling paths at this point
+}
+
 // Branch decides a symbolic condition, forking as needed.
 func (e *Engine) Branch(c *Term) bool {
 	switch c.Op {
@@ -125,13 +135,16 @@ func (e *Engine) Branch(c *Term) bool {
 	idx := len(e.trace)
 	if idx < len(e.prefix) {
 		d := e.prefix[idx]
+		if d.Kind != 0 {
+			panic("decision vector out of sync: branch expected")
+		}
 		e.trace = append(e.trace, d)
-		if d == 1 {
+		if d.Val == 1 {
 			e.assume(c)
 		} else {
 			e.assume(mkNot(c))
 		}
-		return d == 1
+		return d.Val == 1
 	}
 	rt := e.solver.Check(c)
 	var rf string
@@ -143,17 +156,17 @@ func (e *Engine) Branch(c *Term) bool {
 	switch {
 	case rt != "unsat" && rf != "unsat":
 		e.forks++
-		alt := append(append([]int{}, e.trace...), 0)
+		alt := append(append([]Decision{}, e.trace...), Decision{Val: 0})
 		e.pending = append(e.pending, alt)
-		e.trace = append(e.trace, 1)
+		e.trace = append(e.trace, Decision{Val: 1})
 		e.assume(c)
 		return true
 	case rt != "unsat":
-		e.trace = append(e.trace, 1)
+		e.trace = append(e.trace, Decision{Val: 1})
 		e.assume(c)
 		return true
 	default:
-		e.trace = append(e.trace, 0)
+		e.trace = append(e.trace, Decision{Val: 0})
 		e.assume(mkNot(c))
 		return false
 	}
@@ -166,23 +179,53 @@ func (e *Engine) BranchB(b Bool) bool {
 	return e.Branch(b.T)
 }
 
-// concretize a symbolic int by forking on model values.
+// Concretize makes a symbolic int concrete by forking over its feasible values. Each value is one
+// path; the sibling path "some value not yet taken" is queued with the list of taken values.
 func (e *Engine) Concretize(i Int) uint64 {
 	if i.T == nil {
 		return i.V
 	}
-	for n := 0; ; n++ {
-		if n > 300 {
-			panic(unsupported("concretization of a symbolic integer enumerated more than 300 values"))
-		}
-		v, ok := e.solver.Eval(nil, i.T)
-		if !ok {
-			panic(pathEnd{"infeasible", "concretize"})
-		}
-		if e.Branch(mkEq(i.T, bvConst(i.W, v))) {
-			return v
+	if e.speculative {
+		panic(specAbort{})
+	}
+	idx := len(e.trace)
+	var excl []uint64
+	if idx < len(e.prefix) {
+		d := e.prefix[idx]
+		switch d.Kind {
+		case 1:
+			e.trace = append(e.trace, d)
+			e.assume(mkEq(i.T, bvConst(i.W, d.Val)))
+			return d.Val
+		case 2:
+			excl = d.Excl
+		default:
+			panic("decision vector out of sync: concretization expected")
 		}
 	}
+	if len(excl) > 300 {
+		panic(unsupported("concretization of a symbolic integer enumerated more than 300 values"))
+	}
+	for _, x := range excl {
+		e.assume(mkNot(mkEq(i.T, bvConst(i.W, x))))
+	}
+	v, ok := e.solver.Eval(nil, i.T)
+	if !ok {
+		if len(excl) > 0 {
+			panic(pathEnd{"infeasible", "concretize: all values taken"})
+		}
+		panic(pathEnd{"infeasible", "concretize: solver says " + e.solver.Check(nil) + " for the path condition at " + e.where()})
+	}
+	eq := mkEq(i.T, bvConst(i.W, v))
+	if e.solver.Check(mkNot(eq)) != "unsat" {
+		e.forks++
+		nx := append(append([]uint64{}, excl...), v)
+		alt := append(append([]Decision{}, e.trace...), Decision{Kind: 2, Excl: nx})
+		e.pending = append(e.pending, alt)
+	}
+	e.trace = append(e.trace, Decision{Kind: 1, Val: v})
+	e.assume(eq)
+	return v
 }
 
 func (e *Engine) concInt(v Value) int {
@@ -1340,11 +1383,13 @@ func (e *Engine) intBinop(op token.Token, signed bool, x, y Int) Value {
 		panic(unsupported("int binop " + op.String()))
 	}
 	a, b := x.term(), y.term()
+	var wideBig *Term // shift count wider than the operand: count >= w decided on the wide count
 	if op == token.SHL || op == token.SHR {
 		if b.W < w {
 			b = mkZext(w, b)
 		} else if b.W > w {
-			panic(unsupported("wide shift count"))
+			wideBig = mk("bvuge", 0, b, bvConst(b.W, uint64(w)))
+			b = mkExtract(w-1, 0, b)
 		}
 	}
 	bin := func(o string) Value { return fromTermI(mk(o, w, a, b)) }
@@ -1378,13 +1423,23 @@ func (e *Engine) intBinop(op token.Token, signed bool, x, y Int) Value {
 		return bin("bvxor")
 	case token.AND_NOT:
 		return fromTermI(mk("bvand", w, a, mk("bvnot", w, b)))
-	case token.SHL:
-		return bin("bvshl")
-	case token.SHR:
-		if signed {
-			return bin("bvashr")
+	case token.SHL, token.SHR:
+		o := "bvshl"
+		if op == token.SHR {
+			o = "bvlshr"
+			if signed {
+				o = "bvashr"
+			}
 		}
-		return bin("bvlshr")
+		r := mk(o, w, a, b)
+		if wideBig != nil {
+			over := bvConst(w, 0)
+			if o == "bvashr" {
+				over = mk("bvashr", w, a, bvConst(w, uint64(w-1)))
+			}
+			r = mkIte(wideBig, over, r)
+		}
+		return fromTermI(r)
 	case token.EQL:
 		return fromTermB(mkEq(a, b))
 	case token.NEQ:
